@@ -1360,7 +1360,7 @@ def _split_c(cfg, bound, cap, want):
     st = explore.Stats()
     roots = explore.frontier(make_runner(cfg), bound, want, st)
     gc.collect()
-    per = None if cap is None else max(1, cap // max(1, len(roots)))
+    per = cap            # (a safety net per subtree, not a budget to split)
     return st, [(cfg, bound, per, p) for p in roots]
 
 
@@ -1383,14 +1383,9 @@ def c_configs(tier):
                 k += 1
                 for mode in modes:
                     out.append((dict(kind='lin', type=typ, seqs=[a, b],
-                                     mode=mode, warm=True), 1, None))
-        if thorough:
-            # two preemptions at pipe / lock granularity
-            for i, a in enumerate(one):
-                for b in one[i:]:
-                    out.append((dict(kind='lin', type=typ, seqs=[a, b],
-                                     mode='threads', warm=True, lines=False),
-                                2, 200000))
+                                     mode=mode, warm=True),
+                                2 if thorough and mode == 'threads' else 1,
+                                None))
         # cold: the first call of each client (accept_connection, a new
         # serving thread) is inside the explored phase
         out.append((dict(kind='lin', type=typ, seqs=[one[0], one[1]],
@@ -1764,6 +1759,26 @@ def main(tier, seed, only=None):
                         for i in f10_first[1]['seq']], f10_first[0]),
             dict(f10_first[1], harness='c20'), signature=F10)
 
+    # ---- (d)
+    dd = dict(evals=0, outcomes=set(), samples=[])
+    for t, r in zip(tasks, res):
+        if t[0] != 'd':
+            continue
+        dd['evals'] += r['evals']
+        dd['outcomes'] |= r['outcomes']
+        dd['samples'] += r['samples']
+        for msg, rp in r['viols']:
+            nviol['d'] += 1
+            if nviol['d'] <= MAX_REPORT:
+                rep.violation(msg, dict(rp, harness='c20'))
+    if want('d'):
+        rep.part('key', evaluations=dd['evals'], states=len(dd['outcomes']),
+                 outcomes=dd['outcomes'], samples=dd['samples'][:2],
+                 variants=len(key_variants(tier)), paths=len(D_PATHS))
+
+    if b_result is not None:
+        rep.part('lifetime', **b_result)
+
     # ---- (c)
     by_kind = {}
     c_res = [(cfg, st.as_dict(), True) for cfg, st in pre_c] + \
@@ -1785,26 +1800,6 @@ def main(tier, seed, only=None):
     for name in sorted(by_kind):
         st = by_kind[name]
         rep.stats(name, st, configs=st.configs)
-
-    # ---- (d)
-    dd = dict(evals=0, outcomes=set(), samples=[])
-    for t, r in zip(tasks, res):
-        if t[0] != 'd':
-            continue
-        dd['evals'] += r['evals']
-        dd['outcomes'] |= r['outcomes']
-        dd['samples'] += r['samples']
-        for msg, rp in r['viols']:
-            nviol['d'] += 1
-            if nviol['d'] <= MAX_REPORT:
-                rep.violation(msg, dict(rp, harness='c20'))
-    if want('d'):
-        rep.part('key', evaluations=dd['evals'], states=len(dd['outcomes']),
-                 outcomes=dd['outcomes'], samples=dd['samples'][:2],
-                 variants=len(key_variants(tier)), paths=len(D_PATHS))
-
-    if b_result is not None:
-        rep.part('lifetime', **b_result)
 
     for part, n in sorted(nviol.items()):
         if n > MAX_REPORT:
